@@ -1131,3 +1131,107 @@ package pongo2
 //@ func (*Parser).Error
 //@   ensures {C16} @names-the-template-and-the-given-token r0 != nil && r0.Filename == p.name && r0.Template == p.template && r0.Sender == "parser" && (token != nil ==> (r0.Line == token.Line && r0.Column == token.Col && r0.Token == token))
 //@   ensures {C16} @defaults-to-the-current-token (token == nil && 0 <= p.idx && p.idx < len(p.tokens) && p.tokens[p.idx] != nil) ==> (r0.Line == p.tokens[p.idx].Line && r0.Column == p.tokens[p.idx].Col)
+
+// ---- name resolution through reflect (C08, C01) ----
+// more of reflect's documented panic conditions and a few facts about which values may be turned back into
+// interfaces (values obtained from ValueOf, and what is reached from them except through unexported fields)
+//@ spec TypeAssignable(a reflect.Type, b reflect.Type) bool
+//@ spec TypeKeyOf(t reflect.Type) reflect.Type
+//@ spec TypeNumIn(t reflect.Type) int
+//@ spec TypeNumOut(t reflect.Type) int
+//@ spec TypeVariadic(t reflect.Type) bool
+//@ extern (reflect.Value).Interface(v) (r0)
+//@   pure as RVInterface
+//@   requires {C01,C08} @valid RVKind(v) != 0
+//@   requires {C01,C08} @not-from-an-unexported-field RVCanInterface(v)
+//@ extern (reflect.Value).MapIndex(v, key) (r0)
+//@   pure as RVMapIndex
+//@   requires {C01,C08} @kind RVKind(v) == 21
+//@   requires {C01,C08} @key-of-the-maps-key-type RVKind(key) != 0 && TypeAssignable(RVType(key), TypeKeyOf(RVType(v)))
+//@   ensures RVCanInterface(v) ==> RVCanInterface(r0)
+//@ extern (reflect.Value).Call(v, in) (r0)
+//@   requires {C01,C08} @a-function RVKind(v) == 19
+//@   requires {C01,C08} @argument-count len(in) == TypeNumIn(RVType(v)) || (TypeVariadic(RVType(v)) && len(in) >= TypeNumIn(RVType(v)) - 1)
+//@   ensures len(r0) == TypeNumOut(RVType(v)) && fresh(r0)
+//@ iface reflect.Type.AssignableTo(recv, u) (r0)
+//@   ensures r0 == TypeAssignable(recv, u)
+//@ iface reflect.Type.Key(recv) (r0)
+//@   requires {C01,C08} @map-type TypeKind(recv) == 21
+//@   ensures r0 == TypeKeyOf(recv) && r0 != nil
+//@ iface reflect.Type.NumIn(recv) (r0)
+//@   requires {C01,C08} @func-type TypeKind(recv) == 19
+//@   ensures r0 == TypeNumIn(recv) && r0 >= 0
+//@ iface reflect.Type.NumOut(recv) (r0)
+//@   requires {C01,C08} @func-type TypeKind(recv) == 19
+//@   ensures r0 == TypeNumOut(recv) && r0 >= 0
+//@ iface reflect.Type.IsVariadic(recv) (r0)
+//@   requires {C01,C08} @func-type TypeKind(recv) == 19
+//@   ensures r0 == TypeVariadic(recv) && (r0 ==> TypeNumIn(recv) >= 1)
+//@ iface reflect.Type.In(recv, i) (r0)
+//@   requires {C01,C08} @func-type TypeKind(recv) == 19
+//@   requires {C01,C08} @parameter-index 0 <= i && i < TypeNumIn(recv)
+//@   ensures r0 != nil
+//@ iface reflect.Type.Elem(recv) (r0)
+//@   requires {C01,C08} @has-an-element-type TypeKind(recv) == 17 || TypeKind(recv) == 18 || TypeKind(recv) == 21 || TypeKind(recv) == 22 || TypeKind(recv) == 23
+//@   ensures r0 != nil
+//@ iface reflect.Type.Kind(recv) (r0)
+//@   ensures r0 == TypeKind(recv)
+//@ extern reflect.ValueOf(i) (r0)
+//@   ensures RVCanInterface(r0)
+//@ extern (reflect.Value).Elem(v) (r0)
+//@   ensures RVCanInterface(v) ==> RVCanInterface(r0)
+//@ extern (reflect.Value).Index(v, i) (r0)
+//@   ensures RVCanInterface(v) ==> RVCanInterface(r0)
+//@ extern (reflect.Value).MethodByName(v, name) (r0)
+//@   ensures RVKind(r0) == 0 || (RVKind(r0) == 19 && RVCanInterface(r0))
+// a Value never wraps something that cannot be turned back into an interface (a value reached through an unexported field)
+//@ type Value
+//@   invariant {C01,C08} RVKind(self.val) == 0 || RVCanInterface(self.val)
+//@ extern (reflect.Value).MapKeys(v) (r0)
+//@   ensures RVCanInterface(v) ==> (forall i int :: (0 <= i && i < len(r0)) ==> (RVCanInterface(r0[i]) && RVKind(r0[i]) != 0 && TypeAssignable(RVType(r0[i]), TypeKeyOf(RVType(v)))))
+//@ extern (reflect.Value).Slice(v, i, j) (r0)
+//@   ensures RVKind(r0) != 0 && (RVCanInterface(v) ==> RVCanInterface(r0))
+//@ extern (reflect.Value).Type(v) (r0)
+//@   ensures TypeKind(r0) == RVKind(v)
+//@ axiom forall t reflect.Type :: TypeAssignable(t, t)
+//@ extern (reflect.Value).Interface(v) (r0)
+//@   ensures (typeis(r0, "int") ==> RVKind(v) == 2) && (typeis(r0, "string") ==> RVKind(v) == 24) && (typeis(r0, "*Value") ==> RVKind(v) == 22)
+//@ extern reflect.New(typ) (r0)
+//@   ensures RVCanInterface(r0) && RVCanInterface(RVElem(r0))
+//@ func (*Value).Interface
+//@   ensures {C08} @the-wrapped-value-as-interface (RVKind(v.val) != 0 ==> r0 == RVInterface(v.val)) && (RVKind(v.val) == 0 ==> r0 == nil)
+// sort calls Less with indices in range on the slice it was given, whose elements are keys of an interfaceable map (ASSUMED protocol)
+//@ func (sortedKeys).Less
+//@   requires @assume-elements-are-map-keys 0 <= i && i < len(sk) && 0 <= j && j < len(sk) && RVCanInterface(sk[i]) && RVCanInterface(sk[j])
+//@ extern (reflect.Value).FieldByIndexErr(v, index) (r0, r1)
+//@   requires {C01,C08} @kind RVKind(v) == 25
+//@ iface reflect.Type.FieldByName(recv, name) (r0, r1)
+//@   requires {C01,C08} @struct-type TypeKind(recv) == 25
+//@ func fieldByName
+//@   requires {C01,C08} @a-struct RVKind(v) == 25
+//@ extern (reflect.Value).Call(v, in) (r0)
+//@   ensures forall i int :: (0 <= i && i < len(r0)) ==> (RVKind(r0[i]) != 0 && RVCanInterface(r0[i]))
+//@ iface reflect.Type.In(recv, i) (r0)
+//@   ensures (TypeVariadic(recv) && i == TypeNumIn(recv) - 1) ==> TypeKind(r0) == 23
+//@ func (*variableResolver).resolve
+//@   invariant 1 {C01,C08} @current-can-be-inspected RVKind(current) == 0 || RVCanInterface(current)
+// each step of a dotted / subscripted name follows exactly one reflect operation (C08)
+//@ func (*variableResolver).resolve
+//@   at reflect.ValueOf#1 requires {C08} @names-set-by-tags-shadow-the-callers-context (has(ctx.Private, vr.parts[0].s) ==> arg0 == ctx.Private[vr.parts[0].s]) && (!has(ctx.Private, vr.parts[0].s) ==> (has(ctx.Public, vr.parts[0].s) ==> arg0 == ctx.Public[vr.parts[0].s]) && (!has(ctx.Public, vr.parts[0].s) ==> arg0 == nil))
+//@   at (reflect.Value).MethodByName requires {C08} @method-of-that-name-on-the-value-as-it-is arg1 == part.s && part.typ == varTypeIdent
+//@   at (reflect.Value).Index#0 requires {C08} @sequence-element-at-the-written-index arg1 == part.i && part.typ == varTypeInt && 0 <= part.i && part.i < RVLen(arg0)
+//@   at fieldByName#0 requires {C08} @struct-field-of-that-name arg1 == part.s && part.typ == varTypeIdent
+//@   at (reflect.Value).MapIndex#0 requires {C08} @map-entry-under-that-name part.typ == varTypeIdent && arg1 == RVOf(box(part.s)) && TypeAssignable(RVType(arg1), TypeKeyOf(RVType(arg0)))
+//@   at (reflect.Value).Index#1 requires {C08} @sequence-element-at-the-evaluated-index part.typ == varTypeSubscript && arg1 == VInteger(lastresult("IEvaluator.Evaluate")) && 0 <= arg1 && arg1 < RVLen(arg0)
+//@   at fieldByName#1 requires {C08} @struct-field-named-by-the-subscript part.typ == varTypeSubscript && arg1 == VString(lastresult("IEvaluator.Evaluate"))
+//@   at (reflect.Value).MapIndex#1 requires {C08} @map-entry-under-the-evaluated-key part.typ == varTypeSubscript && arg1 == lastresult("IEvaluator.Evaluate").val
+//@   at (reflect.Value).Call requires {C08} @called-with-the-evaluated-arguments arg1 == parameters
+//@ func (*variableResolver).resolve
+//@   invariant 1 {C01,C08} @current-is-valid-after-the-first-step rangeindex >= 0 ==> RVKind(current) != 0
+// typeOfValuePtr is reflect.TypeOf(new(Value)) (package initialisation, ASSUMED): a reflect.Value of that type holds a *Value
+//@ extern (reflect.Value).Interface(v) (r0)
+//@   ensures RVType(v) == typeOfValuePtr ==> typeis(r0, "*Value")
+//@ func (*Value).IsNil
+//@   ensures {C01,C08} @nil-means-nothing-valid-behind-it r0 == (RVKind(Resolved(v.val)) == 0)
+//@ extern reflect.ValueOf(i) (r0)
+//@   ensures typeis(i, "*any") ==> RVKind(r0) == 22
